@@ -59,7 +59,16 @@ LEVEL_NOTE = (
     "not injective (fname_unfixed_collision_refuted); the extracted pattern must now be the "
     "position-based one (mpshape_fname_fixed), for which fname_injective / file_names_distinct "
     "hold for arbitrary string keys; a stream of surveys with adversarial keys is compared "
-    "bit for bit between file_dir and memory mode.")
+    "bit for bit between file_dir and memory mode. History independence of the operations of ONE "
+    "simulation (compute / clean / get_efield / jvec / jtvec / gradient / misfit with tol != "
+    "tol_gradient, fields dropped and computed again on demand inside another operation): the "
+    "Coq model carries the tolerance of every task through the shared solver_opts register "
+    "(history_tasks_tolerance: with the collectors' tolerance writes extracted from the current "
+    "source every forward task carries tol and every adjoint / jvec task tol_gradient, for every "
+    "history; cached gradient not modelled, task lists are a superset); that the VALUES an "
+    "operation returns do not depend on the history is measured by the operation-history stream "
+    "against fresh sequential simulations and an independent residual of every stored forward "
+    "field.")
 TRUSTED = [
     "ast-based shape extractor gen_mpshape in py/props/c11.py (fails closed: unknown shapes become "
     "COther / false and break process_map_any_config / store_sites_positional)",
@@ -401,7 +410,32 @@ def extract_store_site(cls, mname):
                             file_key_ok = False
     return dict(fn=mname, pm=pm, worker=worker, tasks_over=tasks_over, loop_over=loop_over,
                 mapped_in_order=mapped_in_order, index_is_enum=index_ok,
-                keys_are_loop_vars=keys_ok, file_key_ok=file_key_ok)
+                keys_are_loop_vars=keys_ok, file_key_ok=file_key_ok,
+                tol_write=collector_tol_write(cf))
+
+
+def collector_tol_write(cf):
+    """Which tolerance the collector writes into the shared solver options right before it
+    hands its task over: the statement directly before the single
+    `return self._data_or_file(what, source, freq, DATA)` must be
+    `DATA['solver_opts']['tol'] = self.tol_forward | self.tol_gradient` -> 'forward' /
+    'gradient'; anything else -> None (the collector trusts whatever the register holds)."""
+    if cf is None:
+        return None
+    body = [s for s in cf.body if not (isinstance(s, ast.Expr)
+                                       and isinstance(s.value, ast.Constant))]
+    rets = [s for s in ast.walk(cf) if isinstance(s, ast.Return)]
+    if len(rets) != 1 or len(body) < 2 or body[-1] is not rets[0]:
+        return None
+    r, w = rets[0].value, body[-2]
+    if not (isinstance(r, ast.Call) and len(r.args) == 4 and isinstance(r.args[3], ast.Name)):
+        return None
+    dname = r.args[3].id
+    if not (isinstance(w, ast.Assign) and len(w.targets) == 1):
+        return None
+    if _src(w.targets[0]).replace('"', "'") != f"{dname}['solver_opts']['tol']":
+        return None
+    return {'self.tol_forward': 'forward', 'self.tol_gradient': 'gradient'}.get(_src(w.value))
 
 
 def extract_srcfreq(cls):
@@ -572,6 +606,22 @@ def render_mpshape(sh):
     L.append("(* get_efield/get_hfield -> compute(source=, frequency=) -> _compute([(source, frequency)]):")
     L.append("   the on-demand task and the slot read back carry the same (source, frequency) *)")
     L.append("Definition ondemand_keys_ok : bool := " + ('true' if sh.get('ondemand') else 'false') + ".")
+    L.append("")
+    L.append("(* what each collector writes into the shared solver_opts['tol'] right before it hands")
+    L.append("   its task over (statement before `return self._data_or_file(...)`) *)")
+    kind_of = {'_compute': 'KForward', '_bcompute': 'KBackprop', 'jvec': 'KJvec'}
+    tw = {kind_of.get(s['fn']): s.get('tol_write') for s in sh['sites']}
+
+    def _tw(k):
+        v = tw.get(k)
+        if v == 'forward':
+            return 'TWrite KForward'
+        if v == 'gradient':
+            return 'TWrite ' + (k if k in ('KBackprop', 'KJvec') else 'KBackprop')
+        return 'TTrust'
+    L.append("Definition collector_tol_writes : tol_writes := fun k => match k with "
+             + ' | '.join(f"{k} => {_tw(k)}" for k in ('KForward', 'KBackprop', 'KJvec'))
+             + " end.")
     L.append("")
     L.append("(* f-string of Simulation._data_or_file *)")
     L.append("Definition fname_pattern : list fpiece := ["
@@ -1649,6 +1699,245 @@ def ondemand_hits(rng, plans, workers=(1,), hist=None):
     return hits
 
 
+# ---- histories of operations on ONE simulation against FRESH sequential simulations ----
+# A field that was dropped (clean) and is computed again ON DEMAND inside another operation
+# (jvec / jtvec / gradient / misfit / get_efield) must be the forward field again.  The same
+# history in another configuration has the same flaw, so the reference here is a FRESH
+# sequential in-memory simulation driven straight to the same logical state, plus an
+# independent residual |s - A e| <= tol * |s| of every stored forward field.
+HIST_SIG = 'result of an operation on a simulation depends on the operations before it'
+HIST_TOLS = [(1e-7, 1e-3), (1e-6, 1e-2), (1e-7, 1e-4)]
+HIST_CHAIN = ['compute', "clean('keepresults')", 'jvec', "clean('computed')", 'jvec',
+              "clean('keepresults')", 'jtvec', "clean('computed')", 'jtvec',
+              "clean('keepresults')", 'gradient', "clean('computed')", 'gradient',
+              "clean('keepresults')", 'get_efield:3', 'misfit', "clean('computed')",
+              'get_efield:1', 'misfit', 'jvec']
+HIST_SHORT = ['compute', "clean('keepresults')", 'jvec', "clean('computed')", 'jtvec',
+              'get_efield:2', 'gradient']
+HIST_OPS = ['compute', "clean('keepresults')", "clean('computed')", 'get_efield', 'jvec',
+            'jtvec', 'gradient', 'misfit']
+
+
+def hist_spec(rng, tols):
+    spec = gen_survey_spec(rng, dims=(2, 2, 2))
+    spec['shape'] = [4, 4, 4]
+    spec['h'] = [[200.0] * 4, [200.0] * 4, [200.0] * 4]
+    spec['prop'] = (spec['prop'] * 2)[:64]
+    spec['aniso'] = 'isotropic'
+    spec['tols'] = list(tols)
+    return spec
+
+
+def gen_history(rng, n):
+    """Random history: starts anywhere (also on a fresh simulation), at least one drop
+    followed by a consumer."""
+    ops = []
+    for _ in range(n):
+        op = rng.choice(HIST_OPS)
+        ops.append(f"get_efield:{rng.randrange(4)}" if op == 'get_efield' else op)
+    k = rng.randrange(1, n - 1)
+    ops[k] = rng.choice(["clean('keepresults')", "clean('computed')"])
+    ops[k + 1] = rng.choice(['jvec', 'jtvec', 'gradient', 'jvec'])
+    if rng.random() < 0.7:
+        ops[0] = 'compute'
+    return ops
+
+
+def _hist_vectors(spec, sim):
+    rs = np.random.RandomState(spec['vec_seed'] % 2**31)
+    vec = rs.randint(-8, 9, sim.model.shape) / 8.0
+    w = (rs.randint(-8, 9, sim.survey.shape) + 1j * rs.randint(-8, 9, sim.survey.shape)) / 8.0
+    return vec, w
+
+
+def _rel_residual(sim, s, f, efield):
+    """|s - A e| / |s| of a forward field, computed here from the model, the source and the
+    field alone (not from what the simulation stored about the solve)."""
+    import emg3d
+    grid = sim.get_grid(s, f)
+    sfield = emg3d.fields.get_source_field(grid, sim.survey.sources[s],
+                                           sim.survey.frequencies[f])
+    vmodel = emg3d.models.VolumeModel(sim.get_model(s, f), sfield)
+    res = emg3d.solver.residual(vmodel, sfield, efield, norm=True)
+    return float(res) / float(np.linalg.norm(sfield.field))
+
+
+def fresh_oracle(spec, obs):
+    """What every operation has to return / leave behind, from FRESH sequential in-memory
+    simulations (one per kind of operation): compute -> operation."""
+    def mk():
+        s_ = build_sim(spec, 1, None)
+        s_.survey.data['observed'][...] = obs
+        s_.compute()
+        return s_
+    a = mk()
+    vec, w = _hist_vectors(spec, a)
+    orc = {'efield': {}, 'resid': {}, 'converged': True}
+    for (s, f) in a._srcfreq:
+        e = a.get_efield(s, f)
+        orc['efield'][(s, f)] = _bytes(e.field)
+        orc['resid'][(s, f)] = _rel_residual(a, s, f, e)
+        orc['converged'] &= int(a.get_efield_info(s, f)['exit']) == 0
+    orc['synthetic'] = a.data.synthetic.data.copy()
+    orc['misfit'] = float(a.misfit).hex()
+    orc['gradient'] = _bytes(a.gradient)
+    orc['jvec'] = _bytes(mk().jvec(vec))
+    orc['jtvec'] = _bytes(mk().jtvec(w))
+    return orc
+
+
+def run_op_history(spec, max_workers, file_dir, obs, ops):
+    """Drive ONE simulation through `ops`; after every operation record its value and,
+    WITHOUT triggering any computation, every stored forward field (digest, independent
+    residual) and the responses."""
+    fd = tempfile.mkdtemp(prefix='c11_hist_') if file_dir else None
+    steps = []
+    try:
+        with _TqdmMasked(False):
+            sim = build_sim(spec, max_workers, fd)
+            sim.survey.data['observed'][...] = obs
+            vec, w = _hist_vectors(spec, sim)
+            keys = sim._srcfreq
+            for op in ops:
+                rec = {'op': op}
+                try:
+                    if op == 'compute':
+                        sim.compute()
+                    elif op.startswith('clean('):
+                        sim.clean(op[7:-2])
+                    elif op.startswith('get_efield:'):
+                        s, f = keys[int(op.split(':')[1]) % len(keys)]
+                        rec['value'] = _bytes(sim.get_efield(s, f).field)
+                        rec['slot'] = (s, f)
+                    elif op == 'jvec':
+                        rec['value'] = _bytes(sim.jvec(vec))
+                    elif op == 'jtvec':
+                        rec['value'] = _bytes(sim.jtvec(w))
+                    elif op == 'gradient':
+                        rec['value'] = _bytes(sim.gradient)
+                    elif op == 'misfit':
+                        rec['value'] = float(sim.misfit).hex()
+                    else:
+                        raise ValueError(op)
+                except Exception as e:      # noqa
+                    rec['raised'] = type(e).__name__ + ': ' + str(e)[:200]
+                    steps.append(rec)
+                    break
+                rec['stored'] = {}
+                for (s, f) in keys:
+                    e = sim._dict_get('efield', s, f)
+                    if e is not None:
+                        rec['stored'][(s, f)] = (_bytes(e.field), _rel_residual(sim, s, f, e))
+                rec['synthetic'] = sim.data.synthetic.data.copy()
+                steps.append(rec)
+        return steps
+    except Exception as e:      # noqa
+        return steps + [{'op': '<setup>', 'raised': type(e).__name__ + ': ' + str(e)[:200]}]
+    finally:
+        if fd:
+            shutil.rmtree(fd, ignore_errors=True)
+
+
+def judge_op_history(spec, orc, steps, keys):
+    """First step of the history at which something differs from the fresh simulations."""
+    tol = spec['tols'][0]
+    for j, rec in enumerate(steps):
+        bad = []
+        if 'raised' in rec:
+            bad.append('raised ' + rec['raised'])
+        else:
+            op = rec['op']
+            if 'value' in rec:
+                want = orc['efield'][rec['slot']] if 'slot' in rec else orc[op]
+                if rec['value'] != want:
+                    bad.append(f"{op} does not return what a fresh sequential simulation "
+                               f"(compute -> {op.split(':')[0]}) returns")
+            for (s, f), (dg, rr) in rec['stored'].items():
+                if dg != orc['efield'][(s, f)]:
+                    bad.append(f"stored efield[{s}][{f}] is not the forward field of a fresh "
+                               f"compute (rel. residual {rr:.1e}, fresh {orc['resid'][(s, f)]:.1e}, "
+                               f"forward tol {tol:g})")
+                elif not rr <= tol * 1.001:
+                    bad.append(f"stored efield[{s}][{f}] misses the forward tolerance: rel. "
+                               f"residual {rr:.3e} > {tol:g}")
+            syn = rec['synthetic']
+            for i, s in enumerate(dict.fromkeys(k[0] for k in keys)):
+                for k, f in enumerate(dict.fromkeys(k[1] for k in keys)):
+                    got = syn[i, :, k]
+                    if np.all(np.isnan(got)):
+                        if not op.startswith(('clean', 'get_efield')):
+                            bad.append(f"synthetic[{s}][{f}] is empty after {op}")
+                    elif _bytes(got) != _bytes(orc['synthetic'][i, :, k]):
+                        rel = float(np.max(np.abs(got / orc['synthetic'][i, :, k] - 1)))
+                        bad.append(f"synthetic[{s}][{f}] differs from the responses of a fresh "
+                                   f"compute (max rel. diff {rel:.1e})")
+        if bad:
+            return j, bad
+    return None, []
+
+
+def history_hits(spec, histories, configs, hist=None, notes=None):
+    sim = build_sim(spec, 1, None)
+    sim.compute()
+    obs = sim.data.synthetic.data.copy() * spec['obs_scale']
+    keys = sim._srcfreq
+    orc = fresh_oracle(spec, obs)
+    if not orc['converged'] or max(orc['resid'].values()) > spec['tols'][0]:
+        if notes is not None:
+            notes.append('operation histories: fresh simulation did not converge; spec skipped')
+        return []
+    hits = []
+    for ops in histories:
+        for (mw, fdir) in configs:
+            steps = run_op_history(spec, mw, fdir, obs, ops)
+            if hist is not None:
+                k = f"sim:op_history/w{mw}/{'file' if fdir else 'mem'}"
+                hist[k] = hist.get(k, 0) + 1
+                hist['sim:op_history/ops'] = hist.get('sim:op_history/ops', 0) + len(steps)
+            j, bad = judge_op_history(spec, orc, steps, keys)
+            if bad:
+                hits.append({'signature': HIST_SIG, 'kind': 'op_history', 'spec': spec,
+                             'config': {'max_workers': mw, 'file_dir': fdir,
+                                        'solver_opts': {'tol': spec['tols'][0],
+                                                        'tol_gradient': spec['tols'][1]}},
+                             'history': ops[:j + 1], 'full_history': ops,
+                             'slots': [list(k) for k in keys],
+                             'observed': f"after step {j} ({ops[j] if j < len(ops) else '?'}): "
+                                         + '; '.join(bad[:5]),
+                             'required': 'every operation returns, and leaves stored, exactly '
+                                         'what a fresh sequential in-memory simulation (compute '
+                                         '-> operation) gives; stored forward fields satisfy '
+                                         '|s - A e| <= tol |s|'})
+                return hits
+    return hits
+
+
+def op_history_stream(rng, thorough, hist=None, notes=None, searcher=False):
+    """Deterministic chain (every drop x every consumer) + random histories; tolerance pairs
+    enumerated deterministically."""
+    hits = []
+    t0 = time.time()
+    tols = HIST_TOLS[rng.randrange(len(HIST_TOLS))] if not (thorough or searcher) else None
+    for ti, tl in enumerate(HIST_TOLS if tols is None else [tols]):
+        spec = hist_spec(rng, tl)
+        rnd = [gen_history(rng, 7) for _ in range(3 if (thorough or searcher) else 1)]
+        if thorough or searcher:
+            plan = [([HIST_CHAIN] + rnd, [(1, False), (1, True)]),
+                    ([HIST_SHORT] + rnd[:1], [(2, True), (2, False)])]
+            if ti > 0:
+                plan = [([HIST_CHAIN] + rnd[:1], [(1, False), (1, True)])]
+        else:
+            plan = [([HIST_CHAIN], [(1, False), (1, True)]), (rnd, [(1, False)]),
+                    ([HIST_SHORT], [(2, True)])]
+        for histories, configs in plan:
+            hits += history_hits(spec, histories, configs, hist, notes)
+            if hits:
+                return hits
+    if notes is not None:
+        notes.append(f"operation histories {time.time() - t0:.0f}s")
+    return hits
+
+
 def correspondence_sim(ctx, dis, hist):
     nsurv = 4 if ctx.thorough else 2
     runs, perturbed, samples, distinct = 0, 0, [], set()
@@ -1734,6 +2023,17 @@ def correspondence_sim(ctx, dis, hist):
                     'impl': h['observed'], 'model': h['required'], 'spec_full': h['spec']})
     runs += 2
     distinct.add(('tol_sequence',))
+    # histories of operations on one simulation against fresh sequential simulations
+    n0 = len(dis)
+    for h in op_history_stream(ctx.rng, ctx.thorough, hist, ctx.notes):
+        dis.append({'what': 'history of operations on one simulation (tol != tol_gradient): '
+                            + h['observed'][:300],
+                    'signature': h['signature'],
+                    'case': {'history': h['history'], 'config': h['config']},
+                    'impl': h['observed'], 'model': h['required'], 'spec_full': h['spec']})
+    nh = sum(v for k, v in hist.items() if k.startswith('sim:op_history/w'))
+    runs += nh
+    distinct.update(('op_history', k) for k in hist if k.startswith('sim:op_history/w'))
     # arbitrary string keys (file names must not depend on what the keys contain)
     spec = gen_survey_spec(ctx.rng, adversarial_keys=True)
     obs, ref = reference(spec)
@@ -1856,6 +2156,9 @@ def search(ctx, broken):
     # 1b. runs of different kinds with tol != tol_gradient, memory and file based
     if not hits:
         hits += tol_sequence_hits(rng, [(1, True), (2, True), (2, False)])
+    # 1c. histories of operations on one simulation against fresh sequential simulations
+    if not hits:
+        hits += op_history_stream(rng, False, None, ctx.notes, searcher=True)
     # 2. grids of different sizes, in memory, several workers
     if not hits:
         hits += sized_grids_hits(rng, (2, 3, 4))
@@ -1915,6 +2218,10 @@ def replay(ctx, payload):
     if fi.get('kind') == 'tol_sequence':
         c = fi['config']
         return not tol_sequence_hits(ctx.rng, [(c['max_workers'], c['file_dir'])])
+    if fi.get('kind') == 'op_history':
+        c = fi['config']
+        return not history_hits(fi['spec'], [fi['full_history']],
+                                [(c['max_workers'], c['file_dir'])])
     if fi.get('kind') == 'own_task':
         obs, _ref = reference(fi['spec'])
         return not own_task_oracle(fi['spec'], obs)
